@@ -204,12 +204,17 @@ impl TypedProgram {
         let Some(fn_def) = self.fn_defs.get(fn_name) else {
             return Err(vec![CompilerError::FnNotFound(fn_name.to_string())]);
         };
+        let const_expr_size;
         let single_array_as_multiple_parties = if fn_def.params.len() == 1 {
             let param = &fn_def.params[0];
             match &param.ty {
                 Type::Array(elem_ty, size) => Some((param, elem_ty, size)),
                 Type::ArrayConst(elem_ty, size) => {
                     Some((param, elem_ty, const_sizes.get(size).unwrap()))
+                }
+                Type::ArrayConstExpr(elem_ty, size) => {
+                    const_expr_size = resolve_const_expr_usize(size, &const_sizes);
+                    Some((param, elem_ty, &const_expr_size))
                 }
                 _ => None,
             }
